@@ -87,7 +87,14 @@ func (r *validationResponseHandler) HandleValidationResponse(
 		// RFC 9111 §4.3.3 Handling Validation Responses (304 Not Modified)
 		// RFC 9111 §4.3.4 Freshening Stored Responses upon Validation
 		updateStoredHeaders(ctx.Stored.Data, resp)
-		if r.rs != nil && !ctx.CCReq.NoStore() && !ParseCCResponseDirectives(resp.Header).NoStore() {
+		// RFC 9111 §4.4: if the stored response was invalidated while this
+		// validation was in flight, writing it back would undo the invalidation.
+		invalidated := false
+		if l, ok := r.rs.(interface{ Listed(urlKey, id string) bool }); ok &&
+			ctx.RefIndex >= 0 && ctx.RefIndex < len(ctx.Refs) && ctx.Refs[ctx.RefIndex] != nil {
+			invalidated = !l.Listed(ctx.URLKey, ctx.Refs[ctx.RefIndex].ResponseID)
+		}
+		if r.rs != nil && !invalidated && !ctx.CCReq.NoStore() && !ParseCCResponseDirectives(resp.Header).NoStore() {
 			// (RFC 9111 §5.2.1.5, §5.2.2.5: nothing of an exchange that carries
 			// no-store is written, so such a 304 freshens only the response returned.)
 			// Write the freshened response back (with the validation's request and
